@@ -141,6 +141,8 @@ class Table:
                 elif isinstance(node, ast.Assign) and len(node.targets) == 1 \
                         and isinstance(node.targets[0], ast.Name):
                     self.module_consts[m][node.targets[0].id] = node.value
+                elif isinstance(node, ast.AnnAssign) and isinstance(node.target, ast.Name) and node.value is not None:
+                    self.module_consts[m][node.target.id] = node.value
         self._mro = {}
 
     # -- C3 linearisation over the classes we know; unknown bases (ABC, float, Thread,
